@@ -20,6 +20,7 @@ import (
 	"verif/harness/fake"
 	"verif/harness/gwx"
 	"verif/harness/refexec"
+	"verif/harness/subx"
 )
 
 // InvalidCase: an operation made invalid by one edit (C10a), or a valid one whose sub-request is answered with errors (C10b).
@@ -370,6 +371,9 @@ func checkC10(c *InvalidCase) (*ev.Failure, string) {
 
 func genErrorPayload(t *rapid.T) []map[string]interface{} {
 	n := rapid.IntRange(1, 4).Draw(t, "nerr")
+	if rapid.IntRange(0, 11).Draw(t, "manyerrs") == 0 {
+		n = rapid.IntRange(21, 40).Draw(t, "nerrmany") // a long list (every field of a page failing): nothing is cut off
+	}
 	var res []map[string]interface{}
 	for i := 0; i < n; i++ {
 		e := map[string]interface{}{"message": rapid.SampledFrom([]string{"boom", "not found: ü", "quote \" inside", "", "line\nbreak", "x"}).Draw(t, "msg") + fmt.Sprint(i)}
@@ -405,7 +409,7 @@ func genErrorPayload(t *rapid.T) []map[string]interface{} {
 
 func TestC10(t *testing.T) {
 	rec := ev.Get("C10")
-	rec.Rule = "(a) a valid generated operation whose execution causes downstream requests receives exactly one invalidating edit out of 17 kinds (unknown field/type/argument/directive/enum value, wrong argument or variable type, undefined/unused variable, fragment cycle, unused fragment, selection on scalar, missing selection, missing required argument, two operations without operationName, unknown operationName, syntax error), invalidity confirmed with gqlparser on the union schema; oracle: no request reaches any fake, errors non-empty, data null. (b) one sub-request of a valid operation is answered with a generated errors payload (1..4 errors; unicode/quotes, nested extensions, string/int paths, locations), in half of the cases a second sub-request of the same run (another service, or a later request) fails too, half of those with the same messages but own path/extensions; oracle: every payload error of every sub-request that was answered with errors appears in the client's errors with message, extensions, path equal. non-trivial = (a) the unedited original reaches >=2 services, (b) an error carries extensions and path; distinct by hash(case)"
+	rec.Rule = "(a) a valid generated operation whose execution causes downstream requests receives exactly one invalidating edit out of 17 kinds (unknown field/type/argument/directive/enum value, wrong argument or variable type, undefined/unused variable, fragment cycle, unused fragment, selection on scalar, missing selection, missing required argument, two operations without operationName, unknown operationName, syntax error), invalidity confirmed with gqlparser on the union schema; oracle: no request reaches any fake, errors non-empty, data null. (b) one sub-request of a valid operation is answered with a generated errors payload (1..4 errors, now and then 21..40; unicode/quotes, nested extensions, string/int paths, locations), in half of the cases a second sub-request of the same run (another service, or a later request) fails too, half of those with the same messages but own path/extensions; oracle: every payload error of every sub-request that was answered with errors appears in the client's errors with message, extensions, path equal. non-trivial = (a) the unedited original reaches >=2 services, (b) an error carries extensions and path; distinct by hash(case)"
 	defer census.dump("C10")
 	rapid.Check(t, func(t *rapid.T) {
 		opType := ast.Query
@@ -525,6 +529,10 @@ func TestC10(t *testing.T) {
 
 func init() {
 	replayers["C10"] = func(path string) (*ev.Failure, error) {
+		var sc SubInvalidCase
+		if _, _, err := ev.LoadCase(path, &sc); err == nil && sc.SubInvalid {
+			return checkC10Sub(&sc), nil
+		}
 		var c InvalidCase
 		if _, _, err := ev.LoadCase(path, &c); err != nil {
 			return nil, err
@@ -535,4 +543,80 @@ func init() {
 		}
 		return f, nil
 	}
+}
+
+// SubInvalidCase: on one websocket connection a valid subscription is started first (history), then a start message
+// whose operation cannot be executed; the gateway must answer it alone.
+type SubInvalidCase struct {
+	SubInvalid bool `json:"sub_invalid"`
+	// FirstNamed: the valid first start carries an operationName (and variables)
+	FirstNamed bool   `json:"first_named"`
+	Kind       string `json:"kind"` // ambiguous | unknownName | unknownField | syntax | queryNotSubscription
+}
+
+var subInvalidKinds = []string{"ambiguous", "unknownName", "unknownField", "syntax"}
+
+func checkC10Sub(c *SubInvalidCase) *ev.Failure {
+	w := teardownWorld()
+	net, _ := fake.NewNet(w)
+	up := subx.NewUpstream(net)
+	gw, err := gwx.BuildWithFactory(w, net, gwx.Config{}, up.Factory())
+	if err != nil {
+		return ev.Failf("harness", "%v", err)
+	}
+	cc, err := subx.Connect(gw)
+	if err != nil {
+		return ev.Failf("harness", "%v", err)
+	}
+	defer cc.Close()
+	cc.SendJSON(map[string]interface{}{"type": "connection_init"})
+	first := map[string]interface{}{"query": "subscription A { tick }"}
+	if c.FirstNamed {
+		first["operationName"] = "A"
+		first["variables"] = map[string]interface{}{"unused": 1}
+		first["query"] = "subscription A { tick } subscription B { humanAdded { name } }"
+	}
+	cc.SendJSON(map[string]interface{}{"type": "start", "id": "ok", "payload": first})
+	select {
+	case <-up.NewSub:
+	case <-time.After(20 * time.Second):
+		return ev.Failf("harness", "the valid subscription was not started upstream")
+	}
+	net.Reset()
+	var payload map[string]interface{}
+	switch c.Kind {
+	case "ambiguous":
+		payload = map[string]interface{}{"query": "subscription A { tick } subscription B { humanAdded { name } }"}
+	case "unknownName":
+		payload = map[string]interface{}{"query": "subscription A { tick } subscription B { humanAdded { name } }", "operationName": "C"}
+	case "unknownField":
+		payload = map[string]interface{}{"query": "subscription { tick nope }"}
+	default:
+		payload = map[string]interface{}{"query": "subscription { tick "}
+	}
+	cc.MarkEnding() // the gateway may drop the connection on an invalid start; that is its answer then
+	cc.SendJSON(map[string]interface{}{"type": "start", "id": "bad", "payload": payload})
+	select {
+	case s := <-up.NewSub:
+		return ev.Failf("reached-downstream", "a subscription start that cannot be executed (%s) after a valid start on the same connection opened an upstream subscription: %s", c.Kind, s.Req.Query)
+	case <-time.After(300 * time.Millisecond):
+	}
+	if log := net.Snapshot(); len(log) > 0 {
+		return ev.Failf("reached-downstream", "a subscription start that cannot be executed (%s) caused %d downstream request(s)", c.Kind, len(log))
+	}
+	return nil
+}
+
+func TestC10Subscription(t *testing.T) {
+	rec := ev.Get("C10")
+	rapid.Check(t, func(t *rapid.T) {
+		c := &SubInvalidCase{SubInvalid: true, FirstNamed: rapid.Bool().Draw(t, "firstnamed"), Kind: rapid.SampledFrom(subInvalidKinds).Draw(t, "kind")}
+		ev.Current("C10", c)
+		f := checkC10Sub(c)
+		rec.Case(ev.Hash(c), true, "subscription-invalid:"+c.Kind)
+		if f != nil {
+			ev.WriteFail("C10", c, f)
+			t.Fatalf("%v", f)
+		}
+	})
 }
